@@ -740,7 +740,7 @@ impl LZDiff {
 
     /// Check if byte is a literal
     fn is_literal(&self, c: u8) -> bool {
-        (b'A'..=b'A' + 20).contains(&c) || c == b'!'
+        (b'A'..=b'A' + 20).contains(&c) || c == b'A' + N_RUN_STARTER_CODE || c == b'!'
     }
 
     /// Decode a literal
